@@ -106,8 +106,9 @@ func (h *harness) paillier2048(flipBudget int) {
 	if h.thorough || h.a.Search {
 		h.rangeProof(keys, flipBudget)
 		h.lpdlProof(keys)
-		h.cggmp21(keys, primes)
 	}
+	h.cggmp21(keys, primes) // quick: enc and encelg only
+
 	if os.Getenv("C08_TIMING") != "" {
 		fmt.Fprintf(os.Stderr, "pailliern %.1fs blummod %.1fs lp %.1fs range %.1fs\n", t1.Sub(t0).Seconds(), t2.Sub(t1).Seconds(), t3.Sub(t2).Seconds(), time.Since(t3).Seconds())
 	}
